@@ -20,7 +20,7 @@ def c02(tier):
         Harness('VHarnessAmountChecked', 'cashu', ['cashu/zz_verif_cashu.go'], bounds='<= 4 outputs, amounts full 64 bit', must_reach=('ok', 'overflow')),
     ]
 
-MINT_FILES = ['mint/zz_verif_env.go', 'mint/zz_verif_swap.go', 'mint/zz_verif_melt.go', 'mint/zz_verif_quotes.go', 'mint/zz_verif_minttokens.go', 'mint/zz_verif_query.go', 'mint/zz_verif_hook.go', 'mint/zz_verif_crash.go', 'mint/zz_verif_sched.go', 'mint/storage/sqlite/zz_verif_db.go']
+MINT_FILES = ['mint/zz_verif_env.go', 'mint/zz_verif_swap.go', 'mint/zz_verif_melt.go', 'mint/zz_verif_quotes.go', 'mint/zz_verif_minttokens.go', 'mint/zz_verif_query.go', 'mint/zz_verif_hook.go', 'mint/zz_verif_crash.go', 'mint/zz_verif_sched.go', 'mint/zz_verif_sigall.go', 'cashu/nuts/nut11/zz_verif_p2pk.go', 'mint/storage/sqlite/zz_verif_db.go']
 MINT_MODELS = ('std', 'crypto', 'json', 'sql', 'mint', 'threads')
 MINT_ASSUME = COMMON_ASSUME + [
     'keysets of the harness mint hold the denominations {1, 2, 2^63} only (the 60-entry tables are cut; the arithmetic kernels are checked at full width separately)',
@@ -91,6 +91,7 @@ def c12(tier):
                 must_reach=('accepted', 'rejected')),
           n11_h('VHarnessP2PKComplete', 'canonical witness of AddSignatureToInputs for every lock with n_sigs <= 1, 0..2 co-signers, 0..1 refund keys, any locktime', must_reach=('canonical-accepted',)),
           n11_h('VHarnessSigAllPosition', '1..3 inputs, each plain / SIG_INPUTS / SIG_ALL', must_reach=('checked',))]
+    hs.append(mint_h('VHarnessSigAllSwapP2PK', 'mint swap/melt with a SIG_ALL P2PK input (n_sigs <= 1, <= 1 co-signer), optionally behind a plain input; outputs signed by the helper / unsigned / signed by a foreign key', summaries=('h2c', 'nut10'), must_reach=('helpers-accepted', 'unsigned-rejected')))
     if tier == 'thorough':
         hs.append(n11_h('VHarnessP2PKSoundWide', 'as VHarnessP2PKSound with n_sigs 0..4, 0..3 co-signers, 0..2 refund keys, 0..4 signatures', must_reach=('accepted', 'rejected'), timeout_s=3000))
     return hs
@@ -101,6 +102,7 @@ def n14_h(name, bounds, **kw):
 def c13(tier):
     hs = [n14_h('VHarnessHTLCSound', 'HTLC: hash well-formed/short/garbage, preimage right/other/non-hex/empty; lock n_sigs 0..2, 0..1 listed keys, 0..1 refund keys, any locktime; 0..2 signatures', must_reach=('accepted', 'rejected')),
           n14_h('VHarnessHTLCComplete', 'canonical witness of AddWitnessHTLC for every lock with n_sigs <= 1, 0..2 listed keys, before the locktime', must_reach=('canonical-accepted',))]
+    hs.append(mint_h('VHarnessSigAllSwapHTLC', 'mint swap/melt with a SIG_ALL HTLC input (n_sigs = 1, 1 listed key), optionally behind a plain input; outputs carry the helper witness / none / a foreign signature', summaries=('h2c', 'nut10'), must_reach=('helpers-accepted', 'unsigned-rejected')))
     if tier == 'thorough':
         hs.append(n14_h('VHarnessHTLCSoundWide', 'as VHarnessHTLCSound with n_sigs 0..3, 0..3 keys, 0..2 refund keys, 0..3 signatures', must_reach=('accepted', 'rejected'), timeout_s=3000))
     return hs
